@@ -279,8 +279,8 @@ def const_val(e):
         return e.get('v')
     if 'cv' in e:
         return e['cv']
-    if e.get('k') == 'cast':
-        return const_val(e['e']) if e.get('ck') in ('LValueToRValue', 'NoOp') else e.get('cv')
+    if e.get('k') == 'cast' and e.get('ck') in ('LValueToRValue', 'NoOp'):
+        return const_val(e['e'])
     return None
 
 
